@@ -11,33 +11,67 @@ PROP = dict(
     confirm_rerun=True, shrink=False, timeout=1500, search_rounds=1,
     rule="one record = one scripted run of the real ConnectToPanel against an in-process loopback panel "
          "(48 scripts at a time): panel absent / closing right after accept / silent / binary / ASCII / appearing late; "
-         "panel dropping at every byte offset 0..N of a 3-frame binary (thorough: and every, quick: every second offset of a "
-         "4-line ASCII) stream; 3 loss/reconnect cycles; retry periods default, 1, 2 s; cancellation before the dial, in the "
-         "no-connection wait, during the 2 s probe, 0/50 ms after onconnect, idle, mid-header, mid-payload, mid-line, in the "
-         "ASCII 1 s EOF sleep, in the retry sleep, twice; message lists offered on msgsToPanel during the retry wait after a loss (100/400/800 ms into it, periods default, 2, 3 s, both modes, unbuffered and buffered channel, 3-30 lists), during the ASCII EOF sleep, across the reconnect and with cancellation inside the wait; plus n random scripts. EQ = the observed trace is accepted by the "
-         "LTS (set-of-states simulation); H = the monitors of Spec/LifecycleSpec.lean on the trace; distinct = distinct script text",
+         "panel dropping at every byte offset 0..N of a 4-frame binary and of a 4-line ASCII stream (quick and thorough: every offset, "
+         "so every partial header / payload / line at an orderly close); 3 loss/reconnect cycles; retry periods default, 1, 2 s; "
+         "the panel going silent inside a frame (client's in-frame deadline) at 6 offsets and announcing an over-limit frame at 4 "
+         "boundaries, 2 such cycles, cancellation during the stall, silence at a boundary / inside an ASCII line (no fault); "
+         "cancellation before the dial, in the no-connection wait, during the 2 s probe, 0/50 ms after onconnect, idle, mid-header, "
+         "mid-payload, mid-line, in the ASCII 1 s EOF sleep, in the retry sleep, twice; the consumer of msgsFromPanel pausing "
+         "(500-2600 ms) while the stream arrives, across a panel drop, across a reader fault, with the cancellation inside the pause; "
+         "message lists offered on msgsToPanel during the retry wait after a loss (100/400/800 ms into it, periods default, 2, 3 s, "
+         "both modes, unbuffered and buffered channel, 3-30 lists), during the ASCII EOF sleep, across the reconnect, with cancellation "
+         "inside the wait, and 40-60 lists of 20-50 kB across two losses (writer inside conn.Write when the connection goes); plus n "
+         "random scripts (loss kind, pause, traffic drawn at random). EQ = the observed trace is accepted by the LTS (set-of-states "
+         "simulation; the panel's bytes fed one by one, the model clock following the trace timestamps); H = the monitors of "
+         "Spec/LifecycleSpec.lean on the trace; distinct = distinct script text. The garbage collector is held back while scripts "
+         "run (a forgotten socket is not closed by a finalizer behind the monitor's back)",
     trusted_base=["Go scheduler, memory model, kernel TCP and the wall clock are outside the model (LTS labels / trace timestamps with tolerances)",
                   "atomicity of one LTS label = one Go statement group"],
     assumptions=["the panel speaks only after the probe (frames arriving during the probe are C12's business)",
-                 "net.Dial terminates (its duration is an environment step)"],
+                 "net.Dial terminates (no dial timeout in the code; its duration is an environment step; `Waiting.dial`)",
+                 "someone receives from msgsFromPanel (documented API precondition, connecttopanel.go line 28): the delivery is a bare channel send, so "
+                 "while nobody receives the client blocks - it drops nothing, but it cannot honour a cancellation either "
+                 "(C11.cancel_blocked_while_consumer_stopped; observed on the unchanged tree). Scripts pause the consumer for a bounded "
+                 "time only; the return bound then counts from the later of cancel and the consumer's resumption, and frames sent "
+                 "during a pause that contains the cancellation are not demanded",
+                 "a panel that stays connected reads what is written to it: a writer goroutine inside conn.Write on a socket open at both ends "
+                 "does not see the cancellation (C11.cancel_blocked_while_writer_in_write; observed on the unchanged tree with a panel "
+                 "that never reads and ~5 MB of lists); all scripted panels read",
+                 "the retry period is promised after panel loss only: in the NO-connection wait any list on msgsToPanel ends the wait at "
+                 "once (C11.traffic_ends_noconn_wait); scripts offer no traffic while the panel is absent",
+                 "between a failed dial and the evaluation of the select behind it no clock tick is assumed in the return-after-cancel "
+                 "bound (program steps are fast relative to the >= 1 s periods)"],
 )
 
 CLAIM = dict(
     category="proof",
-    text="Lean theorems over ALL executions (induction on Reachable, any number of reconnect cycles and any interleaving of the main "
-         "loop, every writer goroutine, cancellation, panel drops and frame arrivals) of a labelled transition system of ConnectToPanel: "
-         "callbacks alternate starting with connect; a cancelled disconnect occurs only after cancel, at most once and is the last callback, "
-         "and the call returns directly after a disconnect callback exactly when it was reported cancelled; frames completed before a panel drop "
-         "are delivered exactly once and in order, nothing else is delivered; a new dial happens only after the retry sleep; every program-only "
-         "path is bounded and after cancel it can only stop in `returned` or waiting for the dial result; every socket opened is closed at return. "
-         "For the repaired wait-group accounting (wg.Add before `go`): returned and wg = 0 imply every writer goroutine has exited; for the "
-         "pinned accounting (wg.Add inside the goroutine) the negation is proved on a concrete execution (C11.late_wg_add_counterexample). "
-         "Tie to the code: trace validation - the real client is run against scripted loopback panels (crash at every byte offset, every "
-         "cancellation phase, 3 reconnect cycles, retry periods), every observed trace must be accepted by the LTS and satisfy the independent "
-         "monitors (callbacks, deliveries, retry timing, bounded return, wg.Wait, no library goroutine left, every accepted socket closed).",
+    text="Lean theorems over ALL executions (induction on Reachable: any retry periods, any number of reconnect cycles, any interleaving of "
+         "the main loop, every writer goroutine, cancellation, panel drops after any number of bytes, single-byte arrivals with frame "
+         "boundaries anywhere, msgsToPanel traffic, a pausing consumer, the clock) of a labelled transition system of ConnectToPanel: "
+         "callbacks alternate starting with connect, also when the reader ends the connection itself (in-frame deadline, over-limit header: "
+         "label readFault, binary only, only inside a started frame); a cancelled disconnect occurs only after cancel, at most once and is "
+         "the last callback, and the call returns directly after a disconnect callback exactly when it was reported cancelled; for every "
+         "frame-length script and EVERY drop offset d in both modes exactly the Spec's completeBefore(lens, d) frames are delivered, each "
+         "once and in order, the partial one never (C11.drop_at_every_offset), and never more than the complete ones at any time; "
+         "a connection is established no earlier than the configured reconnect retry period after every earlier disconnect callback "
+         "(clock in the LTS, C11.redial_not_before_period), whereas the no-connection wait also ends at once on msgsToPanel traffic "
+         "(documented, with counterexample to the period); every socket opened is closed at return; the number of connect callbacks is at "
+         "most 1 + the number of connections lost by drop or fault; a failed conn.Write changes nothing but the writer's own state. "
+         "Return after cancel: program-only runs are bounded by an explicit measure; a cancelled call can rest only in returned or in "
+         "four waiting states (dial pending, sleep not over, reader blocked on the consumer, writer blocked in conn.Write: each a declared "
+         "assumption, the last two with counterexample theorems); along any run the environment does not disturb at most crank(s) helpful "
+         "steps happen and a helpful step stays enabled until returned (C11.return_after_cancel), likewise after a loss until connected "
+         "again (C11.reconnect_after_drop). Wait group: after the return every maximal program-only run ends with all writers exited and "
+         "the counter 0 (C11.wg_drains, both accountings); for the repaired accounting (wg.Add before `go`) returned and wg = 0 imply "
+         "every writer goroutine has exited; for the pinned accounting the negation is proved on a concrete execution "
+         "(C11.late_wg_add_counterexample). Tie to the code: trace validation - the real client is run against scripted loopback panels, "
+         "every observed trace must be accepted by the LTS (bytes, clock and all) and satisfy the independent monitors (callbacks, "
+         "deliveries, retry timing, bounded return, wg.Wait, no library goroutine left, every accepted socket closed).",
     note=TB + "PARTIAL: proof of the lifecycle logic as an LTS over all interleavings + trace validation against the real client. Outside the "
          "model: the Go scheduler (the traces show only the schedules the runtime took; the late-start schedule needs the verif parking hook), "
-         "the Go memory model, kernel TCP (FIN/RST), real time (timing clauses are checked on traces with tolerances, not proved), the byte-level "
-         "data path (C08/C10) and the probe (C12). Atomicity of a label is an assumption.",
-    technique="Lean 4 LTS + inductive invariants over Reachable; decide counterexample; trace validation (LTS acceptance + monitors) on the real client",
+         "the Go memory model, kernel TCP (FIN/RST), real time beyond the two retry waits (the 2 s probe, the 1 s ASCII EOF sleep and the 2 s "
+         "in-frame deadline are not on the model clock; timing clauses are checked on traces with tolerances), payload contents (C08/C10) "
+         "and the probe (C12). Atomicity of a label is an assumption. Liveness is stated as rank + progress (no temporal logic): "
+         "fairness = 'helpful steps keep being taken'.",
+    technique="Lean 4 LTS with clock and byte-level reader + inductive invariants over Reachable; ranking functions for bounded return / reconnect / wg drain; decide counterexamples; trace validation (LTS acceptance + monitors) on the real client",
 )
